@@ -56,6 +56,15 @@ def run_pipe_correspondence(ctx, scs, builtin, label="pipe"):
     return impl, outs, mod, mism, dist
 
 
+def lib_status(r):
+    if r is None:
+        return "none"
+    for k in ("ok", "parse_error", "panic", "crash", "timeout"):
+        if k in r:
+            return k
+    return "other"
+
+
 def pipeline_check(ctx, prop_file, focus, n=None):
     """Shared driver.  focus: which scenarios / clauses belong to this property."""
     for a in ("pipeline model: swc comment capture/attachment, byte offsets and line breaks of the file are inputs of the model; the generator's own layout knowledge supplies them, so they are re-validated against the implementation on every run",
@@ -105,6 +114,38 @@ def pipeline_check(ctx, prop_file, focus, n=None):
                        samples=[{"src": s["src"], "rules": s["rules"], "fw": s["fw"], "lw": s["lw"], "ext": s["ext"], "output": O}
                                 for s, O in list(zip(scs, outs))[:2]],
                        distribution=dict(dist))
+    # ---- one Linter reused for many files (per-file external linters with DIFFERENT declared codes): every file as if linted alone
+    groups = collections.defaultdict(list)
+    for k, s in enumerate(scs):
+        groups[json.dumps([s["rules"], s["fw"], s["lw"]], sort_keys=True)].append(k)
+    multi, mmeta = [], []
+    for key, ks in sorted(groups.items(), key=lambda kv: -len(kv[1]))[:40]:
+        ks = ks[:30]
+        if len(ks) < 2:
+            continue
+        rules_, fw_, lw_ = json.loads(key)
+        files_ = [{"src": scs[k]["src"], "media": scs[k]["media"], "ext": scs[k]["ext"]} for k in ks]
+        for order in (list(range(len(ks))), list(range(len(ks)))[::-1]):
+            multi.append({"linter": {"rules": rules_, "fw": fw_, "lw": lw_}, "files": files_, "order": order, "threads": 0})
+            mmeta.append(ks)
+    n_reuse = n_reuse_bad = 0
+    if multi:
+        mres = lib.run_vh("multi", multi, per_case_timeout=60)
+        for ks, r in zip(mmeta, mres):
+            if not r or "seq" not in r:
+                continue
+            for it in r["seq"]:
+                k = ks[it["file"]]
+                if impl[k] is None or lib_status(impl[k]) != "ok" or lib_status(it["res"]) != "ok":
+                    continue
+                n_reuse += 1
+                if pipe.impl_tuples(it["res"]) != outs[k]:
+                    n_reuse_bad += 1
+                    if n_reuse_bad <= 2:
+                        ctx.violation("%s.depends-on-files-linted-before-on-the-same-linter" % ctx.prop, "a file linted on a reused Linter differs from the same file linted alone",
+                                      {"case": pipe.impl_case(scs[k]), "alone": outs[k], "reused": pipe.impl_tuples(it["res"])})
+    ctx.correspondence("reused Linter: scenario files of one configuration linted one after the other (two orders) vs each alone", n_reuse, n_reuse, [],
+                       "the external-linter results of the files differ (declared codes, diagnostics)")
     ctx.extra["oracle"] = ("property-level oracle on the implementation: O=lint(file) vs O0=lint(file with every directive word overwritten "
                            "in place); clauses checked: " + ",".join(focus["clauses"]))
     return scs, outs, outs0, builtin
